@@ -231,7 +231,9 @@ inline vegas_pdf<T> vegas_refine_pdf(vegas_pdf<T> const& pdf, T alpha, std::vect
             if (tmp[bin] != T())
             {
                 T const r = tmp[bin] / norm;
-                T const impfun = pow((r - T(1.0)) / log(r), alpha);
+                // if all the information is in a single bin `r` is one, where the function has
+                // the limit one but evaluates to 0/0
+                T const impfun = (r == T(1.0)) ? T(1.0) : pow((r - T(1.0)) / log(r), alpha);
                 average_per_bin += impfun;
                 tmp[bin] = impfun;
             }
